@@ -37,6 +37,23 @@ Theorem C07_table_lookup_is_nearest_definition : forall h cs i c m n, wf_hist h 
   tbl_get n (methods m) = static_lookupS h i n.
 Proof. exact table_lookup_is_nearest_definition. Qed.
 
+(* Object is the implicit root: a user override of a method Object defines wins for the class and all descendants *)
+Theorem C07_user_override_of_object_method_wins : forall h cs i c m n a st mr,
+  wf_hist h -> build h = Ok cs -> nth_error (classes cs) i = Some (c, m) ->
+  In a (ancestry h i) -> a <> 0 -> own h a n = Some (st, mr) ->
+  (forall b, In b (ancestry h i) -> b <> a -> b <> 0 -> own h b n = None) ->
+  tbl_get n (methods c) = Some mr.
+Proof. exact user_override_of_object_method_wins. Qed.
+Theorem C07_object_method_override_example :
+  wf_hist ex_object_override /\
+  match build ex_object_override with
+  | Ok cs => map (fun cm => tbl_get "derives" (methods (fst cm))) (classes cs)
+  | _ => []
+  end = [Some (MNative NDerives); Some (MClosure 0); Some (MClosure 0); Some (MClosure 0); Some (MNative NDerives)] /\
+  map (fun c => lookupS ex_object_override c "derives") [0; 1; 2; 3; 4]
+  = [Some (MNative NDerives); Some (MClosure 0); Some (MClosure 0); Some (MClosure 0); Some (MNative NDerives)].
+Proof. exact object_method_override_wins. Qed.
+
 (* --- x.m(a) and var f = x.m; f(a): same callee, same slot 0, or same error --- *)
 Theorem C07_invoke_eq_get_then_call : forall w recv n argc,
   invoke w recv n argc = rbind (get_property w recv n) (fun f => call_value (w_arity w) f argc).
@@ -132,6 +149,8 @@ Print Assumptions C07_side_frames_max.
 Print Assumptions C07_side_messages_used.
 Print Assumptions C07_copydown_eq_chainwalk.
 Print Assumptions C07_table_lookup_is_nearest_definition.
+Print Assumptions C07_user_override_of_object_method_wins.
+Print Assumptions C07_object_method_override_example.
 Print Assumptions C07_invoke_eq_get_then_call.
 Print Assumptions C07_field_wins_in_both_paths.
 Print Assumptions C07_bound_method_keeps_receiver.
